@@ -95,6 +95,16 @@ def dead_field_zero_tail(plan):
     k = r2.choice([3, 5, 7])
     n_i = sum(1 for i in plan["inputs"] if i["t"] == "I")
     n_b = sum(1 for i in plan["inputs"] if i["t"] == "B")
+    if r2.random() < 0.25:
+        # ... or a value of several thousand decimal digits (nothing reduces or range-checks a product there)
+        plan["inputs"].append({"kind": "priv", "t": "I", "v": 10 ** 300})
+        plan["inputs"].append({"kind": "priv", "t": "B", "v": 0})
+        x, c = {"ref": n_i, "t": "I"}, {"ref": n_b, "t": "B"}
+        big = {"op": "**", "a": x, "b": {"k": 16, "t": "I"}, "t": "I"}
+        body = [{"s": "assert", "kind": r2.choice(["lt", "le", "eq", "ne", "gt", "ge"]),
+                 "args": [big, r2.choice([{"k": 5, "t": "I"}, x])], "try": True} for _ in range(r2.randrange(1, 3))]
+        plan["body"].append({"s": "guarded", "cond": c, "body": body, "try": True})
+        return
     plan["inputs"].append({"kind": "priv", "t": "I", "v": r2.choice([1, 2, 4, 5, k, 2 * k])})
     plan["inputs"].append({"kind": "priv", "t": "B", "v": r2.choice([0, 0, 0, 1])})
     x, c = {"ref": n_i, "t": "I"}, {"ref": n_b, "t": "B"}
@@ -840,8 +850,12 @@ class C03(ProverCheck):
             vectors = [[0], [1], [2], [-1]]
         elif kind == "bool_cmp":
             inputs = [{"kind": "priv", "t": "B", "v": 0}, {"kind": "priv", "t": "B", "v": 0}]
-            stmt = {"s": "assert", "kind": rng.choice(list(ASSERT_CMP_KINDS)),
+            # relation and kind of right-hand side (flag / constant 0 / constant 1) are swept by the run index
+            j = i // len(self.kinds)
+            stmt = {"s": "assert", "kind": list(ASSERT_CMP_KINDS)[j % 6],
                     "args": [{"ref": 0, "t": "B"}, {"ref": 1, "t": "B"}]}
+            if (j // 6) % 3:
+                stmt["args"][1] = {"k": (j // 6) % 3 - 1, "t": "I"}       # a flag against the plain constant 0 / 1
             vectors = [[0, 0], [0, 1], [1, 0], [1, 1]]
         elif kind in ("bool_vs_int", "boolop_int"):
             # a raw secret integer used where a boolean is expected: declared boolean on the fly
@@ -1155,7 +1169,10 @@ class C16(ProverCheck):
             budget[0] -= (m - 1).bit_length()
             return ["int", m]
         if u < 0.75:
-            return ["list", [self.gen_schema(rng, depth - 1, budget) for _ in range(rng.randrange(1, 4))]]
+            items = [self.gen_schema(rng, depth - 1, budget) for _ in range(rng.randrange(1, 4))]
+            if rng.random() < 0.3:
+                items.insert(rng.randrange(1, len(items) + 1), copy.deepcopy(items[0]))     # the same field twice
+            return ["list", items]
         return ["rep", self.gen_schema(rng, depth - 1, budget), rng.randrange(1, 4)]
 
     def gen_value(self, rng, sc, inputs, expect, oor):
@@ -1224,6 +1241,7 @@ class C16(ProverCheck):
             want_oor.clear()
             want_oor.append("on")
         val = self.gen_value(rng, sc, inputs, expect, want_oor if want_oor else None)
+        cfg["share_packers"] = rng.random() < 0.5
         plan = {"cfg": cfg, "inputs": inputs, "body": [{"s": "pack", "schema": sc, "value": val}]}
         return {"mode": "pack", "plan": plan, "expect": expect, "oor": bool(want_oor[1:]),
                 "seed": rng.randrange(1 << 30)}
@@ -1466,7 +1484,7 @@ FILE_MIX = {"let": 10, "assert": 2, "guarded": 1, "ite_call": 0.3, "set_ie": 0, 
             "unary": 2, "boolop": 1, "check": 1, "ite": 1, "tobits": 0.3, "tobool": 0.3, "fxp": 1}
 
 
-def prove_in_scratch(tr, stale=None):
+def prove_in_scratch(tr, stale=None, earlier=None):
     """Call the real backend.prove() of the run's world in a private scratch directory and
     return {filename: bytes}.  `stale` = file names to pre-populate with the (long) artefacts of an
     "earlier, larger proof" in the same directory."""
@@ -1478,6 +1496,9 @@ def prove_in_scratch(tr, stale=None):
         for fn in stale or ():
             with open(os.path.join(d, fn), "wb") as f:
                 f.write(b"\xa5" * 200000)
+        for fn, data in (earlier or {}).items():        # the artefacts of an earlier run of the same program
+            with open(os.path.join(d, fn), "wb") as f:
+                f.write(data)
         buf = io.StringIO()
         with contextlib.redirect_stdout(buf), contextlib.redirect_stderr(buf):
             tr.w.backend.prove()
@@ -1670,6 +1691,9 @@ class FileCheck(TraceCheck):
                              {"s": "let", "e": {"op": "*", "a": {"ref": 0, "t": "I"}, "b": {"ref": 0, "t": "I"}, "t": "I"}}]}
             if rng.random() < 0.5:
                 plan["body"].append({"s": "val", "a": {"ref": 1, "t": "I"}})
+            if (i // 8) % 11 == 7:
+                # ... one of the public values has more than 4300 decimal digits
+                plan["inputs"].append({"kind": "pub", "t": "I", "v": 10 ** 5000 + 7})
             if (i // 8) % 5 == 4:
                 # ... and no constraint at all: values only (an empty constraint system is a system too)
                 cfg["no_default_operands"] = True
@@ -1721,6 +1745,11 @@ class FileCheck(TraceCheck):
             else:
                 alt.append(inp["v"] + 1.0)
         case = {"plan": plan, "alt_inputs": alt, "stale_dir": rng.random() < 0.2}
+        r3 = _random.Random("earlier/%s" % P.plan_digest(plan))
+        if r3.random() < 0.15 and not bulk:
+            case["stale_dir"] = False
+            case["earlier_run"] = [(inp["v"] + r3.choice([1, 2, 5]) if inp["t"] == "I" else
+                                    (1 - inp["v"] if inp["t"] == "B" else inp["v"] + 1.0)) for inp in plan["inputs"]]
         if rng.random() < 0.05 and not bulk and not any(s.get("s") == "checkpoint_prove" for s in plan["body"]):
             # the same script once more as a real program: fresh interpreter, real exit hook, and one of the
             # interpreter configurations a deployment may run under
@@ -1769,7 +1798,20 @@ class FileCheck(TraceCheck):
         if case.get("stale_dir"):
             stale = ARTEFACTS[case["plan"]["cfg"]["backend"]]
             probes["proved_over_stale_larger_files"] = 1
-        files = prove_in_scratch(tr, stale)
+        earlier = None
+        if case.get("earlier_run") and tr.outcome == "completed":
+            # directory history: the same program was proven here before, on other (public and private) inputs
+            tr0 = T.TraceRun(case["plan"], inputs=case["earlier_run"], props=()).run()
+            if tr0.outcome == "completed":
+                earlier = prove_in_scratch(tr0)
+                probes["proved_after_earlier_run_in_same_directory"] = 1
+        try:
+            files = prove_in_scratch(tr, stale, earlier)
+        except Exception as e:
+            # the proving step itself failed on a trace that completed: nothing (or half of it) was written
+            files = {}
+            viol.append({"property": self.prop, "oracle": "prove_raised", "site": {"exc": type(e).__name__},
+                         "detail": "backend.prove() raised %s: %s" % (type(e).__name__, str(e)[:120])})
         p = rec.p
         for oracle, where, detail in self.files_problems(files, rec):
             s = {"where": where.split(":")[0] + ":" + where.split(":")[-1] if ":" in where else where,
@@ -2087,7 +2129,7 @@ NEEDS = {"libsnark": "libsnark", "libsnarkgg": "libsnark", "qaptools": "qaptools
 def c19_configs():
     """The whole finite configuration space (deterministic order)."""
     out = []
-    envs = DOC_ORDER + ["bogus", "", None]
+    envs = DOC_ORDER + ["bogus", "", None, "SnarkJS", "snarkjs ", " zkinterface", "QapTools"]
     pres = [[]] + [[n] for n in DOC_ORDER] + [["zkifbellman", "snarkjs"], ["snarkjs", "zkifbellman"],
                                                ["libsnarkgg", "nobackend"],
                                                # two derived modules of one family (they share the base module's field)
@@ -2740,6 +2782,8 @@ class BlockGen:
         self.cfg = cfg
         self.small = bool(cfg.get("block_small"))     # tiny programs for the lying-prover search of C02
         self.names = ["x%d" % i for i in range(rng.randrange(1, 4))]
+        if rng.random() < 0.2:
+            self.names[-1] = "_" + self.names[-1]        # (a variable name may start with an underscore)
         # list-valued tracked variables (flat and nested), assigned cell by cell inside blocks
         self.lists = {}
         if rng.random() < 0.45:
@@ -2881,7 +2925,14 @@ class BlockGen:
             self.loopvars.append(lv)
             s = {"s": "block_for", "stop": stop, "max": self.itermax(), "lv": lv,
                  "checkstopmax": r.random() < 0.4, "body": self.body()}
-            if r.random() < 0.2:
+            if r.random() < 0.12:
+                # a PUBLIC bound: a small constant or the variable of an enclosing loop (triangular loops); zero
+                # iterations are possible (the library refuses a public false condition as unreachable code: such
+                # runs are not judged)
+                s["stop"] = {"lv": r.choice(self.loopvars[:-1])} if len(self.loopvars) > 1 else {"k": r.randrange(0, 3)}
+                s["checkstopmax"] = False
+                s["max"] = 8          # (the cap only applies to secret bounds: keep it above every public bound)
+            elif r.random() < 0.2:
                 # the two-argument form: public start, secret stop >= start, cap above the start
                 s["start"] = r.choice([0, 1, 2, 3])
                 s["stop"] = {"op": "+", "a": stop, "b": {"k": s["start"]}}
@@ -3030,6 +3081,8 @@ class C09(TraceCheck):
                 probes["invalid_plan_discarded"] = 1
             elif cls in ("ValueError", "AssertionError") and ("bit" in tr.outcome_msg or "is not" in tr.outcome_msg):
                 probes["traced_out_of_domain_discarded"] = 1
+            elif cls == "RuntimeError" and "unreachable code" in tr.outcome_msg:
+                probes["public_false_condition_refused_discarded"] = 1
             else:
                 add("traced_raised_native_did_not", dict(site0, exc=cls), "%s: %s" % (tr.outcome, tr.outcome_msg[:150]))
         elif tr.outcome == "completed" and n_out != "completed":
@@ -3196,6 +3249,8 @@ class C15(ProverCheck):
             return {"k": rng.randrange(0, dims[d])}
         if three_d:
             body = [{"s": "array", "nest": [[[elem() for _ in range(q)] for _ in range(m)] for _ in range(n)]}]
+        elif two_d and rng.random() < 0.2:
+            body = [{"s": "array", "template": [elem() for _ in range(m)], "n": n, "rows": None}]
         elif two_d:
             body = [{"s": "array", "rows": [[elem() for _ in range(m)] for _ in range(n)]}]
         else:
@@ -3381,6 +3436,9 @@ class C17(TraceCheck):
                 leaf = {"k": rng.random() < 0.5, "lt": "B"}
             elif k < 0.72:
                 leaf = {"k": rng.choice([0.5, 1.5, -2.25, 3.0, 0.0, 4.75]), "lt": "F"}
+            elif k < 0.76:
+                # a text argument (a label, an option): never a public input, however number-like it reads
+                leaf = {"k": rng.choice(["12", "0x10", "1e3", " 7 ", "label", "007", "1_000", "", "True"]), "lt": "T"}
             elif k < 0.8:
                 leaf = {"enum": rng.choice(["A", "B", "C"]), "lt": "I", "k": {"A": 3, "B": 7, "C": 0}[None] if False else None}
                 leaf["k"] = {"A": 3, "B": 7, "C": 0}[leaf["enum"]]
@@ -3398,9 +3456,10 @@ class C17(TraceCheck):
     def gen_ret_leaf(self, rng, leaves):
         by = {"I": [], "B": [], "F": []}
         for i, l in enumerate(leaves):
-            by["I" if l["lt"] in ("I", "S") else l["lt"]].append(i)
+            if l["lt"] != "T":
+                by["I" if l["lt"] in ("I", "S") else l["lt"]].append(i)
         u = rng.random()
-        if u < 0.12 or not leaves:
+        if u < 0.12 or not (by["I"] or by["B"] or by["F"]):
             return {"k": rng.choice([0, 1, 42])}
         if by["I"] and u < 0.55:
             a = {"leaf": rng.choice(by["I"])}
@@ -3422,7 +3481,7 @@ class C17(TraceCheck):
             if rng.random() < 0.5:
                 return a
             return {"op": rng.choice(["&", "|", "^"]), "a": a, "b": {"leaf": rng.choice(by["B"])}}
-        return {"leaf": rng.randrange(len(leaves))}
+        return {"leaf": rng.choice(by["I"] + by["B"] + by["F"])}
 
     def gen_ret(self, rng, depth, leaves, budget):
         if depth <= 0 or rng.random() < 0.5 or budget[0] <= 1:
@@ -3608,7 +3667,7 @@ class C17(TraceCheck):
                 npub_before = sum(1 for e in rec.events[:c["ev0"]] if e[0] == "pub")
                 pos = 0
                 for l in leaves:
-                    if l["lt"] == "S":
+                    if l["lt"] in ("S", "T"):
                         continue
                     if l["lt"] == "B":
                         saved = rec.pub[npub_before + pos]
@@ -4324,6 +4383,10 @@ class C12(TraceCheck):
         same_name = nf >= 2 and rng.random() < 0.08
         if same_name:
             subqaps[1]["name"] = subqaps[0]["name"]
+        elif nf >= 2 and rng.random() < 0.12:
+            # names that differ only in punctuation / are prefixes of one another
+            subqaps[0]["name"], subqaps[1]["name"] = rng.choice([("g-1", "g_1"), ("chk.nz", "chk_nz"), ("f1", "f1_0"),
+                                                                 ("m_2_h", "m")])
         inputs = [{"kind": rng.choice(["priv", "pub"]), "t": "I", "v": rng.choice([0, 1, 2, 3, -2, 5, 7])}
                   for _ in range(rng.randrange(1, 4))]
         body = []
